@@ -141,7 +141,7 @@ def _squash_impl(text):
 
 class CallInfo:
     __slots__ = ('text', 'kind', 'fn', 'model', 'self_ty', 'trait', 'method', 'generics', 'key', 'segs', 'impl_ty',
-                 'name')
+                 'name', 'nderef')
 
     def __repr__(self):
         return 'CallInfo(%s)' % self.text
@@ -548,10 +548,15 @@ class Engine:
             return self._eval_const(val)
         if 'promoted[' in text:
             raise Unsupported('promoted const body not found: %r' % text)
+        m = re.match(r'^([\w:]+) \{\{\s*\}\}$', text)
+        if m:
+            # a field-less braced struct constant prints as `Name {{  }}`
+            d = self.td.lookup(strip_generics(m.group(1)))
+            return Agg([], d.path if d is not None else m.group(1))
         # enum / struct constant written as a path or aggregate
         try:
             rv = parse_rvalue(text)
-        except Unsupported:
+        except (Unsupported, ValueError):
             rv = None
         if rv is not None and rv[0] == 'adt':
             return self.build_adt(None, rv, None)
@@ -1123,6 +1128,14 @@ class Engine:
         if self.trace_calls:
             sys.stderr.write('%s%s\n' % ('  ' * self.depth, callee[:150]))
         if k == 'mir':
+            nd = getattr(ci, 'nderef', 0)
+            if nd:
+                args = list(args)
+                for i, v in enumerate(args):
+                    for _ in range(nd):
+                        if type(v) is Ref and type(v.get()) is Ref:
+                            v = v.get()
+                    args[i] = v
             return self.run_fn(ci.fn, args)
         if k == 'rt':
             return ci.model(self, ci, args)
@@ -1164,6 +1177,7 @@ class Engine:
         ci.trait = None
         ci.impl_ty = None
         ci.generics = []
+        ci.nderef = 0
         segs = split_path(text)
         ci.segs = segs
         # generics of the final segment
@@ -1199,6 +1213,18 @@ class Engine:
             if fn is not None:
                 ci.kind = 'mir'
                 ci.fn = fn
+                # `<&T as PartialEq<&U>>::eq(&&t, &&u)` forwards to T's impl: strip the extra reference level
+                nref = 0
+                t = sty.strip()
+                while t.startswith('&'):
+                    nref += 1
+                    t = t[1:].lstrip()
+                    if t.startswith("'"):
+                        t = t.split(' ', 1)[1] if ' ' in t else ''
+                    if t.startswith('mut '):
+                        t = t[4:]
+                if nref and tname in ('PartialEq', 'PartialOrd', 'Ord') and fn.params and fn.params[0][1].startswith('&'):
+                    ci.nderef = nref
                 return ci
             m = self.models.get(ci.key)
             # more specific key first:  Trait::method@TypeHead
@@ -1365,8 +1391,14 @@ class Engine:
             # prefer longest module-path agreement
             def score(f):
                 ms = [strip_generics(s) for s in f.mod_path if not s.startswith('<impl')]
+                w2 = want
+                if f.impl_span is not None and len(want) >= 2:
+                    # `m::Type::method` at the use site vs `m::<impl>::method` at the definition: drop the type segment
+                    selfn = self._impl_desc(f)[0]
+                    if want[-2] == selfn:
+                        w2 = want[:-2] + want[-1:]
                 n = 0
-                for a, b in zip(reversed(ms), reversed(want)):
+                for a, b in zip(reversed(ms), reversed(w2)):
                     if a != b:
                         break
                     n += 1
